@@ -62,7 +62,7 @@ static void show(const char* rc, ZSTDMT_CCtx* m, const char* suffix) {
 }
 
 static void do_mtu(char** a, int n) {
-    ZSTD_customMem cm; ZSTDMT_CCtx* m; int i; int order[64]; int nfl = 0; char extra[160]; static unsigned char zv_dict[1 << 17];
+    ZSTD_customMem cm; ZSTDMT_CCtx* m; int i; int order[1100]; int nfl = 0; char extra[160]; static unsigned char zv_dict[1 << 17];
     { size_t q; for (q = 0; q < sizeof zv_dict; q++) zv_dict[q] = (unsigned char)(q * 31 + (q >> 7)); }
     cm.customAlloc = zv_alloc; cm.customFree = zv_free; cm.opaque = NULL;
     zv_live = 0; zv_badFree = 0;
@@ -83,10 +83,11 @@ static void do_mtu(char** a, int n) {
         else if (k == 'G') {
             if (!m->bufPool || !m->jobs) rc = "S";
             else { buffer_t b; unsigned u, slot = ~0u; for (u = 0; u <= m->jobIDMask; u++) if (m->jobs[u].dstBuff.start == NULL) { slot = u; break; }
-                if (slot == ~0u) { printf("NOSLOT "); continue; }
+                if (slot == ~0u) rc = "S";      /* every job slot holds an unflushed buffer: no new job (the model says the same) */
+                else {
                 ZSTDMT_setBufferSize(m->bufPool, (size_t)hx(a[i] + 1));
                 set_sched(arg2[0] == '0' ? "0" : "-"); b = ZSTDMT_getBuffer(m->bufPool); set_sched("-");
-                if (b.start) { int j; m->jobs[slot].dstBuff = b; for (j = nfl; j > 0; j--) order[j] = order[j - 1]; order[0] = (int)slot; nfl++; } else rc = "M"; } }
+                if (b.start) { int j; m->jobs[slot].dstBuff = b; for (j = nfl; j > 0; j--) order[j] = order[j - 1]; order[0] = (int)slot; nfl++; } else rc = "M"; } } }
         else if (k == 'F') { int const idx = (int)hx(a[i] + 1);
             if (!m->bufPool || idx >= nfl) rc = "S";
             else { int j; int const slot = order[idx]; ZSTDMT_releaseBuffer(m->bufPool, m->jobs[slot].dstBuff); m->jobs[slot].dstBuff = g_nullBuffer;
